@@ -197,7 +197,7 @@ class RaggedHistory(Engine):
 
     def run(self, scenario, sandbox, emit):
         darr = import_darr()
-        st = _RState(self, darr, sandbox, emit, set(scenario.get('oracles', self.oracles)))
+        st = self.state_cls(self, darr, sandbox, emit, set(scenario.get('oracles', self.oracles)))
         viol = None
         for idx, op in enumerate(scenario['ops']):
             st.idx = idx
@@ -729,3 +729,6 @@ class _RState:
             lk = leaks(self.path)
             if lk:
                 raise Viol('leak', lk[0][0], str(lk[:4]))
+
+
+RaggedHistory.state_cls = _RState
